@@ -96,41 +96,42 @@ let check_dump (e : env) (k : int) (s : fitv state) (valid : bool) =
     end
   end
 
-(* all strictly decreasing lists over {1 .. hi-1} with exactly n elements *)
-let rec dec_lists hi n : int list list =
-  if n = 0 then [ [] ]
+(* ---- analyzer statistics: bit patterns (the model's [stat]) and the
+   floating-point predicates of utility.h / fitness.tcc over them ---- *)
+let stat_of_token (t : string) : stat =
+  if t = "-" then [] else List.map z_of_hex (String.split_on_char '/' t)
+let float_of_zbits (b : z) : float = Int64.float_of_bits (int64_bits_of_z b)
+let dbl_eps = epsilon_float
+(* template<class T> bool issmall(T v) { return std::abs(v) < 2.0 * epsilon; } *)
+let issmall_d (v : float) : bool = Float.abs v < 2.0 *. dbl_eps
+(* template<class T> bool almost_equal(T v1, T v2, T e = 0.00001) *)
+let almost_equal_d (v1 : float) (v2 : float) : bool =
+  let diff = Float.abs (v1 -. v2) in
+  if issmall_d diff then true
   else
-    List.concat (List.init (max 0 (hi - 1)) (fun j ->
-      let l = j + 1 in
-      List.map (fun r -> l :: r) (dec_lists l (n - 1))))
+    let a1 = Float.abs v1 and a2 = Float.abs v2 in
+    (* std::max(v1, v2) = (v1 < v2) ? v2 : v1 *)
+    let largest = if a1 < a2 then a2 else a1 in
+    diff <= largest *. 0.00001
+let ops : stat_ops =
+  { st_almost_equal = (fun a b ->
+      List.length a = List.length b
+      && List.for_all2 (fun x y -> almost_equal_d (float_of_zbits x) (float_of_zbits y)) a b);
+    st_small = (fun a -> List.for_all (fun x -> issmall_d (float_of_zbits x)) a);
+    st_gt = (fun a z -> match a with
+                        | x :: _ -> float_of_zbits x > float_of_int (int_of_z z)
+                        | [] -> false) }
 
-let rec bool_lists n : bool list list =
-  if n = 0 then [ [] ] else List.concat_map (fun r -> [ true :: r; false :: r ]) (bool_lists (n - 1))
-
-(* relational acceptance of after_generation: is there a choice of the
-   statistics-based decisions for which the model reaches the dump? *)
-let explain_aftergen (e : env) (s : fitv state) (ds : nat list) (target : fitv population) : fitv aftergen option =
-  let l0 = List.length s.pop in
-  let lf = List.length target in
-  let news = match target with ly :: _ -> ly.members | [] -> [] in
-  let result = ref None in
-  let try_kind nrem kind =
-    if !result = None && nrem >= 0 && nrem < l0 then
-      List.iter (fun rem ->
-        if !result = None then
-          List.iter (fun small ->
-            if !result = None then begin
-              let a = { ag_removed = List.map nat_of_int rem; ag_small = small; ag_kind_of = kind } in
-              match after_generation_alps flt e s a with
-              | Some p when pop_eq p target -> result := Some a
-              | _ -> ()
-            end) (bool_lists (l0 - nrem - 1))) (dec_lists l0 nrem) in
-  if l0 <= 9 then begin
-    try_kind (l0 - lf) AgNone;
-    try_kind (l0 - lf + 1) (AgAdd news);
-    try_kind (l0 - lf) (AgRestart (ds, news))
-  end;
-  !result
+(* AZ <groups> {fit mean, fit sd, age mean}*groups <fit variance> *)
+let read_az () : stats =
+  expect "AZ";
+  let n = next_int () in
+  let rows = read_n n (fun () ->
+    let m = stat_of_token (next ()) in let sd = stat_of_token (next ()) in let am = stat_of_token (next ()) in
+    (m, sd, am)) in
+  let var = stat_of_token (next ()) in
+  { fit_mean = List.map (fun (m, _, _) -> m) rows; fit_sd = List.map (fun (_, s, _) -> s) rows;
+    age_mean = List.map (fun (_, _, a) -> a) rows; fit_var = var }
 
 let prob3_of = function "0" -> P0 | "1" -> P1 | _ -> Pmid
 
@@ -139,7 +140,8 @@ let process (line : string) : string =
   pos := 0;
   findings := [];
   let nstep = ref 0 and ngen = ref 0 and nshake = ref 0 and ncb = ref 0 and nrepl = ref 0 and nbest = ref 0
-  and maxlayers = ref 1 and nrestart = ref 0 and nadd = ref 0 and nremoved = ref 0 and nskip = ref 0 in
+  and maxlayers = ref 1 and nrestart = ref 0 and nadd = ref 0 and nremoved = ref 0 and nskip = ref 0
+  and nstopchk = ref 0 and nstopped = ref 0 in
   (try
     expect "ENVM";
     let strat = match next () with "std" -> Std | "de" -> De | "alps" -> Alps | "dealps" -> DeAlps
@@ -206,7 +208,7 @@ let process (line : string) : string =
           (match !model with
            | Some m ->
                let ev = EShake (sm.best_fit, List.map (fun ly -> List.map (fun x -> x.fit) ly.members) p) in
-               (match step_ok flt e m ev with
+               (match step_ok flt ops e m ev with
                 | None -> add "R" !k "shake"
                 | Some s' ->
                     (* the model re-evaluates the best individual: same value as the dump's eva(best) *)
@@ -268,15 +270,27 @@ let process (line : string) : string =
                (match parents_of flt e m ev with
                 | Some mp -> if mp <> par then add "D" !k "parents"
                 | None -> ());
-               (match step_ok flt e m ev with
+               (match step_ok flt ops e m ev with
                 | None -> add "R" !k "step"
                 | Some s' ->
                     if not (pop_eq s'.pop p) then add "D" !k "step_pop";
                     if not (sum_eq s'.sm sm) then add "D" !k "step_summary")
            | None -> ());
           model := Some s; impl := Some s
+      | "STOP" ->
+          decr k;
+          let st = read_az () in
+          let g = next_z () in let li = next_z () in let ms = next_z () in
+          let res = next_int () = 1 in
+          incr nstopchk;
+          let sm0 = (match !impl with Some s -> s.sm | None -> raise (Parse "STOP before INIT")) in
+          let smx = { sm0 with gen = g; last_imp = li } in
+          let want = (match e.e_strat with Std -> std_stop_condition ops ms smx st | _ -> false) in
+          if want <> res then add "D" !k "stop_condition";
+          if res then incr nstopped
       | "GEN" ->
           incr ngen;
+          let st = read_az () in
           expect "D";
           let nd = next_int () in
           let ds = read_n nd next_nat in
@@ -292,24 +306,19 @@ let process (line : string) : string =
            | None -> ());
           (match !model with
            | Some m ->
-               if is_alps e then begin
-                 if List.length m.pop > 9 then incr nskip
-                 else
-                   match explain_aftergen e m ds p with
-                   | None -> add "R" !k "after_generation"
-                   | Some a ->
-                       nremoved := !nremoved + List.length a.ag_removed;
-                       (match a.ag_kind_of with AgAdd _ -> incr nadd | AgRestart _ -> incr nrestart | AgNone -> ());
-                       (match step_ok flt e m (EAfterGen a) with
-                        | Some s' -> if not (sum_eq s'.sm sm) then add "D" !k "aftergen_summary"
-                        | None -> add "R" !k "after_generation_step")
-               end else begin
-                 match step_ok flt e m (EAfterGen { ag_removed = []; ag_small = []; ag_kind_of = AgNone }) with
-                 | None -> add "R" !k "after_generation"
-                 | Some s' ->
-                     if not (pop_eq s'.pop p) then add "D" !k "aftergen_pop";
-                     if not (sum_eq s'.sm sm) then add "D" !k "aftergen_summary"
-               end
+               (* the individuals created by add_layer / init_layer are the new layer 0 *)
+               let news = (match p with ly :: _ when is_alps e -> ly.members | _ -> []) in
+               let a = { ag_stats = st; ag_draws = ds; ag_news = news } in
+               (if is_alps e then begin
+                  let l0 = List.length m.pop and lf = List.length p in
+                  if lf > l0 then incr nadd
+                  else if lf < l0 then nremoved := !nremoved + (l0 - lf)
+                end);
+               (match step_ok flt ops e m (EAfterGen a) with
+                | None -> add "R" !k "after_generation"
+                | Some s' ->
+                    if not (pop_eq s'.pop p) then add "D" !k "aftergen_pop";
+                    if not (sum_eq s'.sm sm) then add "D" !k "aftergen_summary")
            | None -> ());
           model := Some s; impl := Some s
       | "EXC" -> add "R" !k ("exception_" ^ peek ()); continue := false
@@ -319,8 +328,8 @@ let process (line : string) : string =
   | Parse m -> add "R" (-1) ("parse_" ^ String.concat "_" (split_ws m))
   | Failure m -> add "R" (-1) ("failure_" ^ String.concat "_" (split_ws m))
   | Not_found -> add "R" (-1) "not_found");
-  let counters = Printf.sprintf "steps=%d gens=%d shakes=%d cbs=%d replaced=%d best_updates=%d maxlayers=%d restarts=%d added=%d removed=%d skipped=%d"
-      !nstep !ngen !nshake !ncb !nrepl !nbest !maxlayers !nrestart !nadd !nremoved !nskip in
+  let counters = Printf.sprintf "steps=%d gens=%d shakes=%d cbs=%d replaced=%d best_updates=%d maxlayers=%d added=%d removed=%d stop_checks=%d stopped=%d"
+      !nstep !ngen !nshake !ncb !nrepl !nbest !maxlayers !nadd !nremoved !nstopchk !nstopped in
   match List.rev !findings with
   | [] -> "OK " ^ counters
   | fs ->
